@@ -76,7 +76,8 @@ class PlanSuite:
             C = rng.choice([1, 2, 3, 4, 6, 12] if tier == "quick" else [1, 2, 3, 4, 6, 12, 24])
             stock = rng.choice(["10", "20", "100", "1000", "25/2"])
             xmax = Fraction(stock) * rng.choice([1, 1, Fraction(1, 2), Fraction(3, 4), Fraction(1, 10)])
-            xmin = xmax * rng.choice([Fraction(1, 2), Fraction(1, 10), Fraction(1, 100), Fraction(1, 1000), Fraction(1, 10000), Fraction(9, 10)])
+            xmin = xmax * rng.choice([Fraction(1, 2), Fraction(1, 10), Fraction(1, 100), Fraction(1, 1000), Fraction(1, 10000), Fraction(9, 10),
+                                      Fraction(1, 1 << 34), Fraction(1, 1 << 40)])
             mode = rng.choice(["log", "linear", "log", "linear", "quadratic"] if rng.random() < 0.1 else ["log", "linear"])
             if rng.random() < 0.35:
                 vmax = {"shape": "list", "v": [rng.choice(["1000", "950", "500", "200", "1200"]) for _ in range(C if rng.random() < 0.9 else C + 1)]}
@@ -122,6 +123,12 @@ class PlanSuite:
         for extra in KNOWN_PARAMS:
             cases.append(dict(extra, k="plan"))
             cases.append(dict(extra, k="towl", dev="evo", exec=exec_params(random.Random(1), extra["R"], extra["C"], big=True)))
+        # dilutions over more than ten orders of magnitude, executed (tiny fractions must survive composition tracking)
+        for R_, C_, e_, mt_ in ((2, 12, 43, "10"), (1, 12, 40, "20"), (1, 8, 36, "50")):
+            deep = {"xmin": frac_float(Fraction(1000, 1 << e_)), "xmax": "1000", "R": R_, "C": C_, "stock": "1000", "mode": "log",
+                    "vmax": {"shape": "scalar", "v": "1000"}, "min_transfer": mt_}
+            for dev in ("evo", "fluent"):
+                cases.append(dict(deep, k="towl", dev=dev, deep=True, exec=exec_params(random.Random(e_), R_, C_, big=True)))
         cases += self.bad_requests()
         return cases
 
@@ -188,7 +195,9 @@ class PlanSuite:
         vmaxl = [Fraction(vm["v"])] * case["C"] if vm["shape"] == "scalar" else [Fraction(x) for x in vm["v"]]
         if ideal_cols and len(vmaxl) == case["C"] and Fraction(case["stock"]) >= Fraction(case["xmax"]) and case["mode"] in ("log", "linear"):
             ins, xs, hit = exact_plan([[Fraction(t) for t in col] for col in ideal_cols], Fraction(case["stock"]), vmaxl, Fraction(case["min_transfer"]))
-            if hit:
+            if hit and case.get("deep"):
+                out["no_model"] = True  # judged by the oracle against the concentrations the plan itself reports
+            elif hit:
                 return {"drop": "rounding-boundary"}
             out["exact"] = {"instr": [[c, ds, (-1 if s is None else s), [int(v) for v in vt]] for c, ds, s, vt in ins],
                             "x": [[frac_str(v) for v in col] for col in xs]}
@@ -207,6 +216,8 @@ class PlanSuite:
             else:
                 vals = ["0"] * st["cols"]
                 vals[ex["stock_column"]] = frac_str(Fraction(float(plan.v_stock)))
+                if ex["diluent"] == ex["stock"]:
+                    vals[ex["diluent_column"]] = st["max"]  # the diluent column of the same trough stays full
                 st["init"] = {"shape": "list", "v": vals}
             ex["labware"] = lab
         out["exec_used"] = ex
@@ -311,6 +322,23 @@ class PlanSuite:
                         + ("" if obs.get("finite") else " with non-finite volumes or concentrations")]
             if obs["exc"] != "ValueError":
                 return [f"valueerror: a request that cannot be met raised {obs['exc']}"]
+            return []
+        if case.get("deep") and obs.get("no_model"):
+            # only the execution clause, against the reported concentrations (no exact re-plan at a rounding boundary)
+            t = obs.get("towl")
+            if obs.get("err") or not t:
+                return []
+            if t["err"]:
+                return [f"exec: to_worklist raised {t['exc']} on sufficiently large labware"]
+            ex = obs.get("exec_used") or case["exec"]
+            pc = ex["labware"][ex["plate"]]["cols"]
+            ent = dict((i, f) for i, f in (t["comp"][ex["plate"]] or {}).get(ex["stock_component"], []))
+            for c in range(case["C"]):
+                for r in range(case["R"]):
+                    want = Fraction(obs["x"][c][r])
+                    got = Fraction(ent.get(r * pc + c, 0.0)) * Fraction(case["stock"])
+                    if abs(got - want) > abs(want) / 1000000:
+                        return [f"exec-x: tracked concentration in {wid(r, c)} is {float(got)} instead of the reported {float(want)}"]
             return []
         t2 = obs.get("towl2")
         if t2 is not None:
@@ -447,6 +475,12 @@ def exec_params(rng, R, C, big=False):
           "mix_threshold": rng.choice(["1/16", "1/32", "1/2", "0"]), "mix_wash": rng.choice([1, 2, 3, "flush", "reuse"]),
           "mix_repeat": rng.choice([0, 1, 2, 2, 3]), "mix_volume": rng.choice(["3/4", "1/2", "1/4", "7/8", "1", "1"]), "sufficient": suff,
           "stock_exact": rng.random() < 0.3}
+    if rng.random() < 0.25:
+        # the documented configuration: stock and diluent are two columns of ONE trough
+        labware[0]["cols"] = rng.choice([2, 3])
+        ex["stock_column"] = rng.randrange(labware[0]["cols"])
+        ex["diluent"] = 0
+        ex["diluent_column"] = (ex["stock_column"] + 1 + rng.randrange(labware[0]["cols"] - 1)) % labware[0]["cols"]
     if labware[0]["cols"] > 1:
         ex["stock_component"] = "stock.column_%02d" % (ex["stock_column"] + 1)
     else:
